@@ -6,8 +6,8 @@
 From Coq Require Import QArith ZArith List.
 From mathcomp Require Import all_ssreflect all_fingroup all_algebra.
 From mathcomp Require Import ssrZ.
-From CE Require Import GaussMx GeneratorsMxBridge LinAlgBridge GaussBridge.
-From CE Require Model.Gauss.
+From CE Require Import GaussMx GeneratorsMxBridge LinAlgBridge GaussBridge GaussResidBridge.
+From CE Require Model.Itv Model.Gauss.
 Close Scope Q_scope. Close Scope Z_scope.
 Set Implicit Arguments. Unset Strict Implicit. Unset Printing Implicit Defensive.
 Local Open Scope ring_scope.
@@ -123,3 +123,36 @@ Theorem C08_invariant_under_mix_sample :
   Gauss.ratio_det D ix iy iz.
 Proof. exact: ratio_det_mix_sample_det_piv. Qed.
 Print Assumptions C08_invariant_under_mix_sample.
+
+(* the Gram-Schmidt residual vector of the model (resid (zbasis D iz) (col D i), the vector the residual forms are built
+   from) IS the least-squares residual v - C (C^T C)^-1 C^T v of the mathcomp development, C = (Z columns | constant column),
+   whenever these regressors are independent *)
+Theorem C08_model_residual_vectors_are_the_matrix_least_squares_residuals :
+  forall (N : nat) (D : seq (seq Q)) (iz : seq nat) (i : nat), size D = N -> gram (cz N D (size iz) iz) \in unitmx ->
+  (rvec N (Gauss.resid (Gauss.zbasis D iz) (Gauss.col D i)))^T = resid (cz N D (size iz) iz) (rvec N (Gauss.col D i))^T.
+Proof. exact: list_residual_is_resid. Qed.
+Print Assumptions C08_model_residual_vectors_are_the_matrix_least_squares_residuals.
+
+(* DETERMINANT FORM = RESIDUAL FORMS ON LISTS -- the identification that Properties/C08.v declares "tested, not proved for the
+   list model": whenever the determinant form of the model is defined, its block residual form det S(X|Z) det S(Y|Z) /
+   det S(XY|Z) (ratio_res, Gram-Schmidt residual vectors in Q^N) and its sequential residual form (ratio_seq) are defined and
+   return the same rational number -- every sample (the empty one included), every k_x, k_y, k_z.  (No converse: with
+   linearly dependent conditioning columns the residual forms can be defined where the determinant form is None.) *)
+Theorem C08_determinant_form_equals_both_residual_forms_on_lists :
+  forall (D : seq (seq Q)) (ix iy iz : seq nat) (q : Q), Gauss.ratio_det D ix iy iz = Some q ->
+  Gauss.ratio_res D ix iy iz = Some q /\ Gauss.ratio_seq D ix iy iz = Some q.
+Proof. exact: forms_agree. Qed.
+Print Assumptions C08_determinant_form_equals_both_residual_forms_on_lists.
+
+(* hence NON-NEGATIVITY holds for the determinant form itself in every dimension: ratio >= 1 (axiom-free) ... *)
+Theorem C08_determinant_form_ratio_at_least_one_in_every_dimension :
+  forall (D : seq (seq Q)) (ix iy iz : seq nat) (q : Q), Gauss.ratio_det D ix iy iz = Some q -> Qle (Qmake (Zpos xH) xH) q.
+Proof. exact: ratio_det_ge_1_Q. Qed.
+Print Assumptions C08_determinant_form_ratio_at_least_one_in_every_dimension.
+
+(* ... and the estimate 1/2 ln ratio is >= 0 over the reals *)
+Theorem C08_nonnegative_in_every_dimension_on_the_determinant_form :
+  forall (D : seq (seq Q)) (ix iy iz : seq nat) (q : Q), Gauss.ratio_det D ix iy iz = Some q ->
+  Qle (Qmake (Zpos xH) xH) q /\ Rdefinitions.Rle Rdefinitions.R0 (Itv.evalR nil (Gauss.cmi_expr q)).
+Proof. exact: ratio_det_ge_1. Qed.
+Print Assumptions C08_nonnegative_in_every_dimension_on_the_determinant_form.
